@@ -30,6 +30,10 @@ import (
 	"github.com/nspcc-dev/neo-go/pkg/vm/opcode"
 )
 
+// ruleStateRoot is the one header rule a node cannot evaluate for a header
+// that arrives before its predecessor block was processed.
+const ruleStateRoot = "previous state root differs from the local one"
+
 type conflictRec struct {
 	Signers []util.Uint160
 	Index   uint32
@@ -168,7 +172,7 @@ func (cv *chainView) headerRules(h *block.Header) []string {
 	if h.StateRootEnabled != cv.SRIH {
 		why = append(why, "state-root-in-header setting differs")
 	} else if cv.SRIH && h.PrevStateRoot != cv.LocalRoot {
-		why = append(why, "previous state root differs from the local one")
+		why = append(why, ruleStateRoot)
 	}
 	if ok, s := witnessOK(p.NextConsensus, &h.Script, cv.Magic, h); !ok {
 		why = append(why, "witness: "+s)
